@@ -47,6 +47,7 @@ COMPOUTS = {'compAddBcast', 'compDeleteBcast', 'compUpdateBcast', 'compAddResp',
 
 PROPS = {
     'C02': dict(modules=['Hagall.Props.C02'], profiles=['mixed', 'join', 'module', 'custom', 'pose'], n=(240, 4000),
+                tools=['drive', 'extract', 'wire'], extra=['wire_harness'],
                 focus={'join', 'entityAdd', 'entityDelete', 'updatePose', 'custom', 'action', 'assetAdd'},
                 topics=slice_of(['join', 'entityAdd', 'entityDelete', 'updatePose', 'custom', 'action', 'assetAdd', 'disconnect'],
                                 relay_only=True, outs=RELAYS)),
